@@ -220,6 +220,10 @@ class GrammarSemantics(ModelBuilderSemantics):
         directives = {d.name: d.value for d in flatten(ast.directives) if d}
         for value in directives.values():
             literal_eval(repr(value))
+        for name in ('whitespace', 'comments', 'eol_comments'):
+            # these are used as regular expressions, also when written as strings
+            if isinstance(value := directives.get(name), str):
+                self._validate_pattern(value)
         keywords = tuple(flatten(ast.keywords)) or ()
 
         if directives.get('whitespace') in {'None', 'False'}:
